@@ -6,7 +6,7 @@
   (b) `IoRef`     : reference semantics of a *binary, unbuffered* Python io file
                     (`io.FileIO` on a regular file) as a pure state machine.
   (c) `Bio`       : `io.BytesIO` (bytes, pos) — the object shared by all handles of a MemoryFS file,
-      `MemFile`   : `_MemoryFile` of `fs/memoryfs.py` (tree at 85c55f3), line by line, incl. `_seek_lock`.
+      `MemFile`   : `_MemoryFile` of `fs/memoryfs.py` (tree at c4647cd), line by line, incl. `_seek_lock`.
   (d) `copyFileData` : `fs.tools.copy_file_data` over an abstract reader with short reads.
 
   No Mathlib imports (the driver links this module).
@@ -326,6 +326,58 @@ def run (mode : Str) (existing : Option Bytes) (ops : List Op) :
     | .err e => .err e
     | .ok s => .ok (runFrom (Mode.flags mode) s ops)
 
+/-! ### the documented tolerance of the reference
+
+Two calls are *vacuous* — they ask for nothing — and `io.FileIO` lets them through only because
+`IOBase.readline` / `IOBase.writelines` never reach the raw file: `readline(0)` on a closed or
+unreadable handle (returns `b""`) and `writelines([])` on a read-only handle (returns `None`).
+The property text asks handles without permission (and closed handles) to reject, so an
+implementation **may reject** exactly these calls, with the error the non-vacuous call would get;
+nothing else about the call (state, position, bytes) may differ. -/
+
+/-- the error with which a conformant implementation may reject the call instead of performing it -/
+def mayReject (fl : Flags) (s : IoState) : Op → Option FErr
+  | .readline (some z) =>
+    if z == 0 then
+      if s.closed then some .closed else if !fl.reading then some .notPermitted else none
+    else none
+  | .writelines ls =>
+    if !s.closed && ls.isEmpty && !fl.writing then some .notPermitted else none
+  | _ => none
+
+/-- is `o` an admissible result of the call: the reference's own, or the tolerated rejection -/
+def admitsOut (fl : Flags) (s : IoState) (op : Op) (o : Out) : Bool :=
+  decide (o = (step fl s op).2) ||
+  (match mayReject fl s op with
+   | some e => decide (o = .err e)
+   | none => false)
+
+/-- does the reference (with the tolerance) admit this observed session: every result admissible,
+`tell()` after every call and the final bytes exactly the reference's -/
+def admitsFrom (fl : Flags) : IoState → List Op → List (Out × Option Nat) × Bytes → Bool
+  | s, [], ([], fin) => decide (fin = s.bytes)
+  | s, op :: ops, ((o, t) :: tr, fin) =>
+    admitsOut fl s op o && decide (t = obsTell (step fl s op).1) &&
+      admitsFrom fl (step fl s op).1 ops (tr, fin)
+  | _, _, _ => false
+
+def admits (mode : Str) (existing : Option Bytes) (ops : List Op) :
+    Res (List (Out × Option Nat) × Bytes) → Bool
+  | .err e =>
+    (match Mode.validateBin mode with
+     | .err e' => decide (e = e')
+     | .ok _ =>
+       match openFile (Mode.flags mode) existing with
+       | .err e' => decide (e = e')
+       | .ok _ => false)
+  | .ok obs =>
+    (match Mode.validateBin mode with
+     | .err _ => false
+     | .ok _ =>
+       match openFile (Mode.flags mode) existing with
+       | .err _ => false
+       | .ok s => admitsFrom (Mode.flags mode) s ops obs)
+
 end IoRef
 
 /-! ## (c) `io.BytesIO` and `_MemoryFile` -/
@@ -487,12 +539,14 @@ def stepOpen (fl : Flags) (s : MemState) : Op → MemState × Out
   | .write d =>
     if !fl.writing then (s, .err .notPermitted)
     else seekLock s fun b =>
-      let b := if fl.appending then b.seekEnd else b
+      -- if self._mode.appending and len(data): seek(0, SEEK_END)
+      let b := if fl.appending && !d.isEmpty then b.seekEnd else b
       (b.write d, .nat d.length)
   | .writelines ls =>
     if !fl.writing then (s, .err .notPermitted)
     else seekLock s fun b =>
-      let b := if fl.appending then b.seekEnd else b
+      -- lines = list(sequence); if self._mode.appending and any(len(line) for line in lines): seek end
+      let b := if fl.appending && ls.any (fun l => !l.isEmpty) then b.seekEnd else b
       (ls.foldl Bio.write b, .none)
   | .flush => (s, .none)
   | .close => ({ s with closed := true }, .none)
@@ -520,15 +574,11 @@ def run (mode : Str) (existing : Option Bytes) (ops : List Op) :
 
 end MemFile
 
-/-- The (state, call) classes in which `_MemoryFile` still differs from `io.FileIO`
-(see design.d/C16.md).  The first two are *tolerances*: the call is vacuous and rejecting it is
-what the property text asks of a handle without permission / a closed handle; `io.FileIO` lets it
-through only because `IOBase.readline`/`writelines` never reach the raw file.  The third is an
-open finding: the position (and so the data a following read returns) differs. -/
+/-- The (state, call) classes in which `_MemoryFile` differs from `io.FileIO`: exactly the two
+vacuous calls of the documented tolerance (`IoRef.mayReject`), which it rejects. -/
 inductive Dev where
   | readlineZero         -- T0: readline(0) on a closed or unreadable handle is rejected (io: b"")
   | writelinesEmptyRO    -- T1: writelines([]) on a read-only handle is rejected (io: accepted)
-  | appendEmptyWrite     -- F5: zero-length write in append mode moves the position to EOF
   deriving DecidableEq, Repr, Inhabited
 
 def devClass (fl : Flags) (s : IoState) (op : Op) : Option Dev :=
@@ -536,17 +586,10 @@ def devClass (fl : Flags) (s : IoState) (op : Op) : Option Dev :=
   | .readline (some z) =>
     if z == 0 && (s.closed || !fl.reading) then some .readlineZero else none
   | .writelines ls =>
-    if s.closed then none
-    else if ls.isEmpty && !fl.writing then some .writelinesEmptyRO
-    else if fl.writing && fl.appending && ls.all (·.isEmpty) && s.pos != s.bytes.length
-    then some .appendEmptyWrite else none
-  | .write d =>
-    if s.closed then none
-    else if fl.writing && fl.appending && d.isEmpty && s.pos != s.bytes.length
-    then some .appendEmptyWrite else none
+    if !s.closed && ls.isEmpty && !fl.writing then some .writelinesEmptyRO else none
   | _ => none
 
-/-- the hypothesis of `memfile_refines_ioref_partial` -/
+/-- the call is one the implementation rejects and `io.FileIO` lets through -/
 def deviates (fl : Flags) (s : IoState) (op : Op) : Bool := (devClass fl s op).isSome
 
 /-- no call of the session falls in a deviating class (evaluated along the reference run) -/
